@@ -158,3 +158,15 @@ Example C03_joint_run_example :
   let cins := play true 9 sc o cc 6 [] in
   consistent true 9 sc o cc cins /\ In (AuthCall 3 "plain" (Some 7) "tls") (rr_trace (server_on sc o cins)).
 Proof. vm_compute. split; [reflexivity|tauto]. Qed.
+
+(* non-vacuity of C03_client_established_only_with_an_authenticated_server: in the joint run above the client does
+   report an established session *)
+Example C03_client_established_example :
+  let sc := {| sc_comp := ["none"]; sc_enc := ["none"; "tls"]; sc_schemes := ["plain"; "guest"]; sc_kind := TTcp true;
+               sc_tls_ok := true; sc_sid := "SID" |} in
+  let o := {| o_auth := fun _ s c _ => if String.eqb s "plain" then ARole else AUnknown; o_reg := fun _ => RNode 5 |} in
+  let cc := {| cc_comp_sel := fun _ => "none"; cc_enc_sel := fun l => if mem "tls" l then "tls" else "none";
+               cc_auth := fun _ _ => ("plain", 7); cc_identity := 3; cc_kind := TTcp true; cc_tls_ok := true |} in
+  let cins := play true 9 sc o cc 6 [] in
+  build_ok (client_on cc (s_out true 9 (rr_trace (server_on sc o cins)))) = true.
+Proof. vm_compute. reflexivity. Qed.
